@@ -517,11 +517,30 @@ def r4_builder(ctx):
             r.viol("R4:t!#setters", "t! no longer calls the setter named after the argument: a variable `name` gives `%s`, a component `%s`" % (got.get("Var"), got.get("Comp")), file=fn.file, line=fn.line)
     fn = ast.fn("leptos_i18n_macro/src/t_macro/mod.rs", "t_macro_inner")
     if fn is not None:
-        qs = [flat(tok_text(q["tokens"])) for q in xquotes(fn.body)]
-        if any("let_builder=#get_key.#builder_fn();#(let_builder=_builder.#interpolations;)*#[deny(deprecated)]_builder.#build_fn()" in q for q in qs):
-            r.inst("t! template", "every given argument is applied, then #[deny(deprecated)] build (typed-builder reports a missing field through a deprecated fn)")
-        else:
-            r.viol("R4:t!#template", "t! template changed", file=fn.file, line=fn.line)
+        # read off the expansion (rules/tmacro.py): every given argument's setter is called once, in order, and the build call that follows
+        # carries #[deny(deprecated)] (typed-builder reports a missing field through a deprecated fn)
+        from rules import tmacro, absint as _ai
+        from rules.absint import AEval as _AE, C as _C, CF as _CF, L as _L, TOK as _TOK
+        try:
+            _ai.set_program(ast)
+            okt = True
+            for out_ in ("View", "String", "Display"):
+                ev_ = _AE(funcs={})
+                ev_.cfg = lambda t_: False
+                inter_ = _C("Some", _L(tmacro._mk("Var", "a", "a"), tmacro._mk("Comp", "b", "b"), tmacro._mk("AssignedVar", "c", "x")))
+                v_ = ev_.run_fn(fn, [_CF("ParsedInput", context=_TOK("CTX"), keys=_TOK("KEYS"), interpolations=inter_), _C("Context"), _C(out_)])
+                if isinstance(v_, str) or v_[0] != "tok":
+                    raise _ai.Unknown(v_ if isinstance(v_, str) else "not tokens")
+                txt_ = re.sub(r"\s+", "", v_[1])
+                m_ = re.search(r"let_builder=_builder\.var_a\(a\);let_builder=_builder\.comp_b\(b\);let_builder=_builder\.var_c\(c\);#\[deny\(deprecated\)\]_builder\.", txt_)
+                if not m_ or txt_.count("_builder.var_") != 2 or txt_.count("_builder.comp_") != 1:
+                    okt = False
+                    r.viol("R4:t!#template", "t!(.., a, <b>, c = x) as %s expands to `%s`: expected every given argument applied once, in order, then #[deny(deprecated)] build" % (out_, v_[1][:260]), file=fn.file, line=fn.line)
+                    break
+            if okt:
+                r.inst("t! template", "every given argument is applied, then #[deny(deprecated)] build (typed-builder reports a missing field through a deprecated fn)")
+        except _ai.Unknown as u:
+            r.viol("R4:t!#undecided", "t_macro_inner cannot be interpreted on the current code (%s): not decided (fail closed)" % str(u)[:200], file=fn.file, line=fn.line)
     return r
 
 
